@@ -62,6 +62,8 @@ Hypothesis Hgroup : forall p hs body, Forall P body -> P (SGroup p hs body).
 Hypothesis Hcombo : forall p c u, P (SCombo p c u).
 Hypothesis Hah : forall b, P (SAutoHead b).
 Hypothesis Hwr : forall b, P (SWrapper b).
+Hypothesis Hcn : forall i p c, P (SComboNew i p c).
+Hypothesis Hcu : forall i m hs, P (SComboUse i m hs).
 Fixpoint stmt_ind2 (s : stmt) : P s :=
   match s with
   | SRoute m p hs hdr => Hroute m p hs hdr
@@ -74,13 +76,15 @@ Fixpoint stmt_ind2 (s : stmt) : P s :=
   | SCombo p c u => Hcombo p c u
   | SAutoHead b => Hah b
   | SWrapper b => Hwr b
+  | SComboNew i p c => Hcn i p c
+  | SComboUse i m hs => Hcu i m hs
   end.
 End StmtInd.
 
 Theorem exec_stmt_flat : forall s fuel g, depth s <= fuel ->
   exec_stmt fuel g s = lift g (flatten_stmt (fl g) (gp g) (gh g) s).
 Proof.
-  induction s as [m p hs hdr|p hs hdr|p ms ex hs hdr|p hs hdr|p hs body IH|p c u|b|b] using stmt_ind2; intros fuel g Hd;
+  induction s as [m p hs hdr|p hs hdr|p ms ex hs hdr|p hs hdr|p hs body IH|p c u|b|b|i p c|i m hs] using stmt_ind2; intros fuel g Hd;
     (destruct fuel as [|f]; [cbn in Hd; lia|]); cbn [exec_stmt flatten_stmt lift].
   - destruct g; reflexivity.
   - rewrite get_in_get_at. destruct g; reflexivity.
@@ -103,6 +107,9 @@ Proof.
   - rewrite combo_in_at. destruct (combo_at _ _ _ _ _ _ _) as [[ah l]|]; reflexivity.
   - reflexivity.
   - reflexivity.
+  - reflexivity.
+  - destruct (find_combo i (f_cs (fl g))) as [[[p c] added]|]; [|reflexivity].
+    destruct (existsb (str_eqb m) added); [reflexivity|]. rewrite get_in_get_at. reflexivity.
 Qed.
 
 (* the whole program: what the code registers is the flat expansion, in the same order *)
@@ -114,8 +121,8 @@ Proof.
   { apply Forall_forall. intros s Hin g Hg. rewrite exec_stmt_flat.
     - unfold gp, gh. rewrite Hg. reflexivity.
     - pose proof (depth_in_le s p Hin). unfold depth_list. lia. }
-  rewrite (seq_list_lift (S (depth_list p)) [] [] [] p F (mkg (mkf false w0) []) eq_refl).
-  cbn [fl]. destruct (seq_list _ (mkf false w0) p) as [[ah r]|]; reflexivity.
+  rewrite (seq_list_lift (S (depth_list p)) [] [] [] p F (mkg (mkf false w0 []) []) eq_refl).
+  cbn [fl]. destruct (seq_list _ (mkf false w0 []) p) as [[ah r]|]; reflexivity.
 Qed.
 
 (* leaving a group restores the enclosing scope: a statement never changes the stack *)
